@@ -454,6 +454,11 @@ def check(run: Run) -> None:
                         "({a, b} / to_tsl(a, b)) never has a bound output of its own, so nested_<G> with `return arg;` produces no output at all while the inlined G forwards the "
                         "argument", loc=f_out.loc(clears[0]))
 
+    with run.obligation("C09.n", "K4", "two projections of one outer node captured by a nested sub-graph stay two boundary inputs (as they are two inputs when the body is inlined): the "
+                        "capture de-duplication is by WiringPortRef::same_source_as only (shared with C06.j)"):
+        from . import c06 as c06_
+        R.share(run, "C09.n", c06_, ["C06.j"])
+
 
 def HDRX(cn, tail):
     return "graph_header(graph_context(context),graph.data())." + tail
